@@ -80,7 +80,10 @@ def oracle_trim(n, C, thr, K, trimmed, to_original, to_mapped, renumber, symboli
     return obs
 
 
-def trim_job(n, renumber=True, form='dense', maxcount=None):
+def trim_job(n, renumber=True, form='dense', maxcount=None, dtype=int):
+    # dtype: element type of the count matrix (a narrow integer type: every count fits, the row totals need not)
+    if np.dtype(dtype).itemsize < 8 and maxcount is None:
+        maxcount = int(np.iinfo(np.dtype(dtype)).max)
     tm = loader.load('enspara.msm.transition_matrices')
 
     def path(ctx):
@@ -96,7 +99,7 @@ def trim_job(n, renumber=True, form='dense', maxcount=None):
                 x = core.fresh_int('c2', 0, maxcount)
                 ent.append((x, i, j))
                 C[i][j] = C[i][j] + x
-        A = funcs.np_array(C, dtype=int)
+        A = funcs.np_array(C, dtype=dtype)
         A0 = A.copy()
         if form == 'dense':
             arg = A
@@ -127,7 +130,8 @@ def trim_job(n, renumber=True, form='dense', maxcount=None):
             tv = int(ev(model, thr))
             out = {'inputs': {'counts': cv, 'threshold': tv, 'renumber_states': renumber, 'form': form}}
             import scipy.sparse
-            a = np.array(cv, dtype=int)
+            a = np.array(cv, dtype=dtype)
+            out['inputs']['element_type'] = str(np.dtype(dtype))
             if form == 'coo-dup':
                 ev_ = [(int(ev(model, e[0])), e[1], e[2]) for e in ent]
                 out['inputs']['stored_entries'] = [list(t) for t in ev_]
@@ -178,4 +182,8 @@ def jobs(tier):
                 J.append(dict(module='harness.C11', func='trim_job', name='trim[n=%d,renumber=%s,%s]' % (n, ren, form),
                               kwargs=dict(n=n, renumber=ren, form=form), sig_prefix='trim_disconnected',
                               deadline_s=280 if q else 1700))
+    # count matrices stored in a narrow integer type: every count fits, the per-state totals need not (they decide which class is kept)
+    for dt_, form in (('uint8', 'dense'), ('int16', 'dense'), ('uint8', 'csr')):
+        J.append(dict(module='harness.C11', func='trim_job', name='trim[n=3,%s counts,%s]' % (dt_, form),
+                      kwargs=dict(n=3, renumber=True, form=form, dtype=dt_), sig_prefix='trim_disconnected', deadline_s=280 if q else 1700))
     return J
